@@ -20,6 +20,7 @@ func init() {
 			{ID: "C19-R5", Doc: "locks are acquired in one global order (no cycle between lock classes)", Run: c19r5},
 			{ID: "C19-R6", Doc: "every lock a function takes is released on every exit (deferred, explicit or handed over)", Run: c19r6},
 			{ID: "C12-R9", Doc: "a Discard running alongside a Run does not leave the driver with an OK task whose output the worker deleted (shared)", Run: c12r9},
+			{ID: "C16-R11", Doc: "concurrent runs do not share a rewritten argument array (shared)", Run: c16r11},
 			{ID: "C03-R9", Doc: "a task that failed in one run is not re-run by a concurrent run that shares it: TaskInit only from TaskLost (shared)", Run: c03r9},
 			{ID: "C02-R6", Doc: "a run that finds an input discarded by a concurrent Discard recomputes it: dependency read errors are not fatal (shared)", Run: c02r6},
 			{ID: "C02-R4", Doc: "a completed task is located, then OK, then assigned; machine stop marks tasks lost atomically (shared)", Run: c02r4},
